@@ -48,6 +48,9 @@ func c02Hook() c02Variant {
 var c02Fixed = []string{
 	"match (n) return count(n)",
 	"match (n:NodeKind1) return count(n)",
+	"match (n:NodeKind1:NodeKind2) return count(n)",
+	"match (n:NodeKind2:NodeKind1) return count(*)",
+	"match ()-[r:EdgeKind1|EdgeKind2]->() return count(r)",
 	"match ()-[r]->() return count(r)",
 	"match ()-[r:EdgeKind1]->() return count(*)",
 	"match (a)-[r]->(b) return a limit 1",
